@@ -591,6 +591,10 @@ class Interp:
                 return st(self, ctx, callee, args, cur_crate)
         h = self.models.lookup(callee)
         if h is not None: h = self._unshadowed_model(h, callee, cur_crate)
+        if h is not None and "::" not in strip_generics(callee) and "<" not in strip_generics(callee):
+            # a bare name (`once`, `drop`, `min`): a function of that name defined by the crates under analysis wins over the library model
+            f0 = self.prog.resolve(callee, cur_crate)
+            if f0 is not None and f0.blocks and f0.crate in getattr(self.prog, "crates", ()): h = None
         if h is not None:
             ctx.models_used.add(h.__name__)
             r = h(self, ctx, callee, args, cur_crate)
